@@ -12,7 +12,7 @@
 //! Every run uses a fresh Symbolizer; every HashMap built during a run gets a fresh RandomState.
 //! A line `R <hex limits stream>` is the model correspondence case (names of the proc_limits array).
 //! answer:  n=<distinct renderings> h=<fnv of the first> runs=<total> thr=<threads> fr=<frames>
-//!          diff=<up to 8 differing JSON paths / text line numbers, or ->
+//!          diff=<up to 32 differing JSON paths / text line numbers, or ->
 #[path = "../dumpspec.rs"]
 mod dumpspec;
 use async_trait::async_trait;
@@ -229,7 +229,7 @@ async fn process_and_render<S: SymbolSupplier + Send + Sync + 'static>(
 
 fn json_diff(a: &serde_json::Value, b: &serde_json::Value, path: String, out: &mut Vec<String>) {
     use serde_json::Value::{Array, Null, Object};
-    if out.len() >= 8 || a == b {
+    if out.len() >= 32 || a == b {
         return;
     }
     match (a, b) {
